@@ -125,6 +125,17 @@ def _with_covariance(tf, tr, epoch, X, V, plain):
         sc = TR.fro(out) + 1e-300
         if TR.fro(out - out.T) > 1e-12 * sc or float(np.linalg.eigvalsh((out + out.T) / 2).min()) < -1e-12 * sc:
             raise Fail("conform14's covariance is not symmetric positive semi-definite", observed=out, bucket="conform14 vcv psd")
+    # the way back with what the first call returned: the point AND its covariance (symmetric to rounding only, as the library hands
+    # it out) go into the negated set at the same epoch; the point comes back as it does without a covariance
+    back = tf.conform14(got[0], got[1], got[2], epoch, -tr, got[3])
+    back_plain = tf.conform14(got[0], got[1], got[2], epoch, -tr)
+    if not is_seq(back, 4) or not _dist(back[:3], back_plain[:3]) <= 2e-6:
+        raise Fail("the negated set, fed with the point and covariance the forward call returned, does not return the point it returns "
+                   "without the covariance", expected=back_plain[:3], observed=repr(back), bucket="chained covariance")
+    ref2 = tf.conform7(got[0], got[1], got[2], (-tr) + epoch, got[3])
+    if not _same_cov(back[3], ref2[3]):
+        raise Fail("the covariance returned by conform14 and fed into the negated set is not carried as the 7-parameter operation "
+                   "carries it", expected=ref2[3], observed=back[3], bucket="chained covariance")
 
 
 def check_reverse(case):
@@ -157,6 +168,17 @@ def check_atrf(case):
             if not _dist(w[:3], r[:3]) <= 2e-6 or not _same_cov(w[3], r[3]):
                 raise Fail("%s with a covariance is not conform14 with the (negated) plate-motion set and that covariance" % nm,
                            expected={"xyz": r[:3], "vcv": r[3]}, observed={"xyz": w[:3], "vcv": w[3]}, bucket="atrf wrapper vcv")
+            # ... and what it returned goes straight into the opposite function
+            other = tf.transform_gda2020_to_atrf2014 if fn is tf.transform_atrf2014_to_gda2020 else tf.transform_atrf2014_to_gda2020
+            w2 = other(w[0], w[1], w[2], epoch, w[3])
+            r2 = tf.conform14(w[0], w[1], w[2], epoch, -tset, w[3])
+            if not is_seq(w2, 4) or not _dist(w2[:3], r2[:3]) <= 2e-6 or not _same_cov(w2[3], r2[3]):
+                raise Fail("the point and covariance returned by %s, fed into the opposite function, are not transformed as conform14 "
+                           "with the negated set transforms them" % nm, expected={"xyz": r2[:3], "vcv": r2[3]}, observed=repr(w2),
+                           bucket="chained covariance")
+            if not _dist(w2[:3], X) <= H.second_order_bound(_advanced(c.atrf2014_to_gda2020, epoch)[0], X) + 2e-6:
+                raise Fail("ATRF2014 <-> GDA2020 with a covariance travelling along are not mutual inverses within the second-order bound",
+                           expected=X, observed=w2[:3], bucket="chained covariance")
     fwd = tf.transform_atrf2014_to_gda2020(A[0], A[1], A[2], epoch)
     ref = tf.conform14(X[0], X[1], X[2], epoch, c.atrf2014_to_gda2020)
     if not _dist(fwd[:3], ref[:3]) <= 2e-6:
